@@ -41,6 +41,7 @@ import Reamber.Props.C13
 import Reamber.Props.C17
 import Reamber.Props.C18
 import Reamber.Props.C06
+import Reamber.Props.C01
 
 namespace Reamber.PermInv
 
@@ -528,6 +529,68 @@ example : RowPermOf [1, 0]
   ⟨List.Perm.swap _ _ _, rfl, rfl, rfl⟩
 
 end Converters
+
+/-! ## the osu writer -/
+
+section OsuWriter
+
+/-- the same osu chart up to the row order of its four lists (the sample events live in the metadata, in order) -/
+def OsuChartPerm (c c' : Osu.Chart) : Prop :=
+  c.md = c'.md ∧ c.bpms.Perm c'.bpms ∧ c.svs.Perm c'.svs ∧ c.hits.Perm c'.hits ∧ c.holds.Perm c'.holds
+
+theorem osu_insertBy_perm {α} (le : α → α → Bool) (x : α) (l : List α) : (Osu.insertBy le x l).Perm (x :: l) := by
+  induction l with
+  | nil => simp [Osu.insertBy]
+  | cons y ys ih =>
+    simp only [Osu.insertBy]
+    split
+    · exact List.Perm.refl _
+    · exact (List.Perm.cons y ih).trans (List.Perm.swap x y ys)
+
+theorem osu_isort_perm {α} (le : α → α → Bool) (l : List α) : (Osu.isort le l).Perm l := by
+  induction l with
+  | nil => simp [Osu.isort]
+  | cons x xs ih =>
+    have : Osu.isort le (x :: xs) = Osu.insertBy le x (Osu.isort le xs) := rfl
+    rw [this]
+    exact (osu_insertBy_perm le x _).trans (List.Perm.cons x ih)
+
+theorem osu_sortedObjs_perm {c c' : Osu.Chart} (h : OsuChartPerm c c') : (Osu.sortedObjs c).Perm (Osu.sortedObjs c') := by
+  unfold Osu.sortedObjs
+  exact ((osu_isort_perm _ _).trans ((h.2.2.2.2.map _).append (h.2.2.2.1.map _))).trans (osu_isort_perm _ _).symm
+
+theorem osu_quantize_perm (uni : Osu.Str → Osu.Str) {c c' : Osu.Chart} (h : OsuChartPerm c c') :
+    OsuChartPerm (Osu.quantize uni c) (Osu.quantize uni c') := by
+  have hs := osu_sortedObjs_perm h
+  refine ⟨?_, ?_, ?_, ?_, ?_⟩
+  · simp only [Osu.quantize, h.1]
+  · exact h.2.1.map _
+  · exact h.2.2.1
+  · exact (hs.filterMap _).map _
+  · exact (hs.filterMap _).map _
+
+/-- **OsuMap.write**: the texts written for two row orders of one chart both read back (the reader model of C01,
+whole text: split at line breaks, sections, metadata loop, classifiers, `read_string`s), and what they read back as is
+the same chart up to row order: same metadata and sample events, same multisets of hits, holds, tempo points and SVs
+(times truncated to whole ms by the format).  Hypotheses: those of C01's `read_writeText`, on the first chart (they
+are properties of the rows and of the metadata, so they hold for the second). -/
+theorem write_osu_perm (R : Osu.Render) (c c' : Osu.Chart) (h : OsuChartPerm c c')
+    (hk : 0 < Osu.pyTrunc c.md.circleSize) (hk' : Osu.pyTrunc c.md.circleSize ≤ 256)
+    (hhits : ∀ x ∈ c.hits, Osu.ObjOk2 (Osu.pyTrunc c.md.circleSize) (.hit x))
+    (hholds : ∀ x ∈ c.holds, Osu.ObjOk2 (Osu.pyTrunc c.md.circleSize) (.hold x))
+    (hb : ∀ b ∈ c.bpms, Osu.BpmOk2 R b) (hs : ∀ b ∈ c.svs, Osu.SvOk2 R b)
+    (hm : Osu.MetaOk R c.md) (hnl : ∀ tl ∈ Osu.writeMeta c.md, ∀ t ∈ tl, '\n' ∉ R.tok t) :
+    ∃ q q', Osu.readText (Osu.writeText R c) = .ok q ∧ Osu.readText (Osu.writeText R c') = .ok q' ∧ OsuChartPerm q q' := by
+  obtain ⟨hmd, hpb, hps, hph, hpl⟩ := h
+  refine ⟨_, _, Osu.read_writeText R c hk hk' hhits hholds hb hs hm hnl,
+    Osu.read_writeText R c' (hmd ▸ hk) (hmd ▸ hk') ?_ ?_ ?_ ?_ (hmd ▸ hm) (hmd ▸ hnl),
+    osu_quantize_perm R.uni ⟨hmd, hpb, hps, hph, hpl⟩⟩
+  · intro x hx; rw [← hmd]; exact hhits x (hph.mem_iff.mpr hx)
+  · intro x hx; rw [← hmd]; exact hholds x (hpl.mem_iff.mpr hx)
+  · intro b hb'; exact hb b (hpb.mem_iff.mpr hb')
+  · intro b hb'; exact hs b (hps.mem_iff.mpr hb')
+
+end OsuWriter
 
 /-! ## the Quaver writer -/
 
